@@ -9,9 +9,14 @@ FS_FRAME = "final(w).clock == old(w).clock, final(w).admissions == old(w).admiss
 def contracts():
     c = {}
     c["get_file_full_path"] = FnSpec(ret="r", sig="""
-    ensures r matches Ok(t) ==> t.2@ == file_path_spec(*fm, file_type) && t.0@ == file_dir_spec(*fm, file_type)
-                && t.1@ == file_name_spec(*fm, file_type),
-""")
+    ensures
+        // each file type lives in its own directory under its own name: the key file follows the key settings, the certificate file the
+        // certificate settings, the account file the account name
+        r matches Ok(t) ==> t.2@ == file_path_spec(*fm, file_type) && t.0@ == file_dir_spec(*fm, file_type)
+                && t.1@ == file_name_spec(*fm, file_type), //@C02.each_file_type_has_its_own_path,C03.each_file_type_has_its_own_path,C13.each_file_type_has_its_own_path
+""", rewrites=[("T-FMT", r"format!\(\s*\"\{account\}\.\{file_type\}\.\{ext\}\",\s*account = (?P<a>[^,]+),\s*file_type = (?P<b>\w+),\s*ext = (?P<c>\w+),?\s*\)",
+                lambda m: f"dot3(&{m.group('a').strip()}, &{m.group('b')}, &{m.group('c')})")],
+)
     c["get_file_path"] = FnSpec(ret="r", sig="""
     ensures r matches Ok(p) ==> p@ == file_path_spec(*fm, file_type),
 """)
@@ -136,10 +141,11 @@ def build():
              "use crate::vfs::{File, OpenOptions};\nuse crate::nix;")
     u.take(S, "FileManager", "storage")
     u.take(S, "FileType", "storage")
+    u.take(S, "CertFileFormat", "storage")
     u.verify(S, "impl HasLogger for FileManager", "storage", props=["C10"])
     u.raw("storage", SPEC)
     c = contracts()
-    u.stub(S, "get_file_full_path", "storage", fns={"get_file_full_path": c["get_file_full_path"]})
+    u.verify(S, "get_file_full_path", "storage", props=["C02", "C03", "C13"], fns={"get_file_full_path": c["get_file_full_path"]})
     for name, props in [("get_file_path", ["C02"]), ("read_file", ["C02"]), ("set_owner", ["C13"]),
                         ("write_file", ["C02", "C13", "C10", "C03"]), ("get_account_data", ["C11"]),
                         ("set_account_data", ["C02", "C13"]), ("get_keypair_path", ["C02"]), ("get_keypair", ["C01"]),
@@ -213,11 +219,38 @@ impl Clone for FileType {
         match self { FileType::Account => FileType::Account, FileType::PrivateKey => FileType::PrivateKey, FileType::Certificate => FileType::Certificate }
     }
 }
-broadcast use crate::hooks::axiom_file_hook_data_id;
-// where a file of a given type lives: a function of the FileManager alone (its text is get_file_full_path's business)
-pub uninterp spec fn file_path_spec(fm: FileManager, t: FileType) -> Seq<char>;
-pub uninterp spec fn file_dir_spec(fm: FileManager, t: FileType) -> Seq<char>;
-pub uninterp spec fn file_name_spec(fm: FileManager, t: FileType) -> Seq<char>;
+broadcast use {crate::hooks::axiom_file_hook_data_id, crate::stdax2::axiom_to_string_string, vstd::string::to_string_from_display_ensures_for_str};
+// where a file of a given type lives (get_file_full_path): account files in the account directory under
+// "<b64(account name)>.account.bin"; key and certificate files in the certificate directory under the rendered name format, each
+// with the extension configured for ITS OWN type ("pem" when none is) and its own type text ("pk" / "crt")
+pub open spec fn opt_text(o: Option<String>, d: Seq<char>) -> Seq<char> { match o { Some(s) => s@, None => d } }
+pub open spec fn ext_spec(fm: FileManager, t: FileType) -> Seq<char> {
+    match t { FileType::Account => "bin"@, FileType::PrivateKey => opt_text(fm.pk_file_ext, "pem"@), FileType::Certificate => opt_text(fm.cert_file_ext, "pem"@) }
+}
+pub open spec fn type_text(t: FileType) -> Seq<char> { match t { FileType::Account => "account"@, FileType::PrivateKey => "pk"@, FileType::Certificate => "crt"@ } }
+pub uninterp spec fn b64_text(s: Seq<char>) -> Seq<char>;
+pub uninterp spec fn render_name(fmt: Seq<char>, key_type: Seq<char>, ext: Seq<char>, file_type: Seq<char>, name: Seq<char>) -> Seq<char>;
+pub open spec fn file_dir_spec(fm: FileManager, t: FileType) -> Seq<char> { match t { FileType::Account => fm.account_directory@, _ => fm.crt_directory@ } }
+pub open spec fn file_name_spec(fm: FileManager, t: FileType) -> Seq<char> {
+    match t {
+        FileType::Account => b64_text(fm.account_name@) + "."@ + type_text(t) + "."@ + ext_spec(fm, t),
+        _ => render_name(fm.crt_name_format@, fm.crt_key_type@, ext_spec(fm, t), type_text(t), fm.crt_name@),
+    }
+}
+pub open spec fn file_path_spec(fm: FileManager, t: FileType) -> Seq<char> { crate::vpath::path_join(file_dir_spec(fm, t), file_name_spec(fm, t)) }
+// storage.rs helpers of get_file_full_path (trusted): base64url of the account name, the Display of FileType, minijinja rendering
+#[verifier::external_body]
+pub fn b64_encode(s: &String) -> (r: String) ensures r@ == b64_text(s@) { unimplemented!() }
+impl FileType {
+    #[verifier::external_body]
+    pub fn to_string(&self) -> (r: String) ensures r@ == type_text(*self) { unimplemented!() }
+}
+#[verifier::external_body]
+pub fn render_template(t: &String, d: &CertFileFormat) -> (r: Result<String, Error>)
+    ensures r matches Ok(s) ==> s@ == render_name(t@, d.key_type@, d.ext@, d.file_type@, d.name@) { unimplemented!() }
+// format!("{account}.{file_type}.{ext}", ..)  (rule T-FMT)
+#[verifier::external_body]
+pub fn dot3(a: &String, b: &FileType, c: &String) -> (r: String) ensures r@ == a@ + "."@ + type_text(*b) + "."@ + c@ { unimplemented!() }
 // C13: the mode each file type is created with; 0o600 for account files is pinned here, not read from the code
 pub open spec fn mode_cfg(fm: FileManager, t: FileType) -> u32 {
     match t { FileType::Certificate => fm.cert_file_mode, FileType::PrivateKey => fm.pk_file_mode, FileType::Account => 0o600u32 }
